@@ -395,19 +395,17 @@ func (ev *evaluator) source(src int, r *tref, p int) (konst string, from int, ok
 		case "~", "false":
 			return "false", -1, true
 		case "byname":
-			id, found := ev.lookupIn(src, a.Name)
-			if !found {
-				ev.errs["unresolved parameter reference"] = true
-				return "", -1, false
+			if id, found := ev.lookupIn(src, a.Name); found {
+				return "", id, true
 			}
-			return "", id, true
+			// The front end reports the unresolved name, drops the argument and carries on as if
+			// it had not been written (which may add "uninitialized parameters").
+			ev.errs["unresolved parameter reference"] = true
 		case "from":
-			id, found := ev.lookupIn(src, a.From)
-			if !found {
-				ev.errs["unresolved parameter reference"] = true
-				return "", -1, false
+			if id, found := ev.lookupIn(src, a.From); found {
+				return "", id, true
 			}
-			return "", id, true
+			ev.errs["unresolved parameter reference"] = true
 		}
 	}
 	// not mentioned: same-named parameter of the source nonterminal, else the default value
@@ -525,11 +523,17 @@ func (ev *evaluator) lookaheads() {
 		}
 	}
 	// explicit arguments: must be accepted by the target; they make the flag a parameter of the target
+	dropped := map[*tref]map[int]bool{} // explicit lookahead arguments the target does not accept
 	ev.forEachRef(func(src int, r *tref) {
 		t := ev.ntIndex[r.NT]
 		for k := range ev.explicitLA(r) {
 			if !ev.accept[t][k] {
+				// reported, and the argument is removed from the reference
 				ev.errs["is not used in"] = true
+				if dropped[r] == nil {
+					dropped[r] = map[int]bool{}
+				}
+				dropped[r][k] = true
 				continue
 			}
 			ev.has[t][k] = true
@@ -554,8 +558,57 @@ func (ev *evaluator) lookaheads() {
 		if len(ev.has[i]) > 0 && !ev.compat[i] {
 			ev.errs["cannot propagate lookahead flag"] = true
 		}
-		for k := range uses[i] {
-			if !ev.has[i][k] {
+	}
+	// A flag that is used but is not a parameter of the nonterminal. A use that sat in a removed
+	// argument (see above) is gone by the time this is checked.
+	for i, nt := range ev.g.NTs {
+		still := map[int]bool{}
+		var walk func(alts []*talt)
+		walk = func(alts []*talt) {
+			for _, a := range alts {
+				for _, conj := range a.Guard {
+					for _, q := range conj {
+						if id, ok := ev.lookupIn(i, q.Name); ok && ev.params[id].la {
+							still[id] = true
+						}
+					}
+				}
+				for _, it := range a.Body {
+					if it.Ref != nil {
+						ex := ev.explicitLA(it.Ref)
+						for _, arg := range it.Ref.Args {
+							var srcName string
+							switch arg.Form {
+							case "byname":
+								srcName = arg.Name
+							case "from":
+								srcName = arg.From
+							default:
+								continue
+							}
+							gone := false
+							for k, a2 := range ex {
+								if a2 == arg && dropped[it.Ref][k] {
+									gone = true
+								}
+							}
+							if gone {
+								continue
+							}
+							if id, ok := ev.lookupIn(i, srcName); ok && ev.params[id].la {
+								still[id] = true
+							}
+						}
+					}
+					if it.Group != nil {
+						walk(it.Group)
+					}
+				}
+			}
+		}
+		walk(nt.Alts)
+		for k := range still {
+			if uses[i][k] && !ev.has[i][k] {
 				ev.errs["is never provided"] = true
 			}
 		}
